@@ -2,7 +2,7 @@
 # For every "fixed:" line of known_findings.json, try to revert that fix commit on top of /repo HEAD in a scratch
 # worktree; where the revert applies cleanly, store it as mutants/<PROP>-revert-<hash>.patch (the pre-fix behaviour).
 cd /verif
-rm -f mutants/*-prefix-*.patch mutants/*-revert-*.patch
+find mutants -name "*-revert-*.patch" ! -name "*-manual.patch" -delete
 wt=/tmp/wt-revert-$$
 git -C /repo worktree add -q --detach $wt HEAD || exit 2
 /venv/bin/python - <<'PY' > /tmp/fixed-list.txt
